@@ -135,7 +135,7 @@ class MDCPDPEnv(RL4COEnvBase):
         current_length = td["current_length"]
         prev_loc = gather_by_index(td["locs"], td["current_node"])
         curr_loc = gather_by_index(td["locs"], current_node)
-        current_step_length = self.get_distance(prev_loc, curr_loc)
+        current_step_length = self.get_distance(prev_loc, curr_loc)[..., None]
 
         # If this path is the way between two depods, i.e. open a new route, set the length to 0
         current_step_length = torch.where(
